@@ -203,6 +203,45 @@ Theorem C04g_link_split_block :
 Proof. exact link_split_block. Qed.
 Print Assumptions C04g_link_split_block.
 
+Theorem C04g_link_fp_num_blocks :
+  forall p : Partition,
+       fits (length (BasePartition_block (Partition_base p))) ->
+       M_Partition_num_blocks p = Some (N.of_nat (bp_num_blocks (fp_base (convfp p)))).
+Proof. exact link_fp_num_blocks. Qed.
+Print Assumptions C04g_link_fp_num_blocks.
+
+Theorem C04g_link_fp_block_size :
+  forall (p : Partition) (i : N) (h : BlockHeader),
+       nth_error (BasePartition_block (Partition_base p)) (N.to_nat i) = Some h ->
+       (BlockHeader_start h <= BlockHeader_end h)%nat ->
+       fits (BlockHeader_end h - BlockHeader_start h) ->
+       M_Partition_block_size p i =
+       Some (N.of_nat (bp_block_size (fp_base (convfp p)) (N.to_nat i))).
+Proof. exact link_fp_block_size. Qed.
+Print Assumptions C04g_link_fp_block_size.
+
+Theorem C04g_link_fp_new :
+  forall n : N,
+       n < 4294967296 ->
+       exists p : Partition, M_Partition_new n = Some p /\ convfp p = fp_new (N.to_nat n).
+Proof. exact link_fp_new. Qed.
+Print Assumptions C04g_link_fp_new.
+
+Theorem C04g_link_fp_block_id :
+  forall (p : Partition) (x : N),
+       option_map N.to_nat (M_Partition_block_id_fn p x) =
+       nth_error (fp_bid (convfp p)) (N.to_nat x).
+Proof. exact link_fp_block_id. Qed.
+Print Assumptions C04g_link_fp_block_id.
+
+Theorem C04g_link_fp_block_id_in :
+  forall (p : Partition) (x : N),
+       (N.to_nat x < length (Partition_block_id p))%nat ->
+       option_map N.to_nat (M_Partition_block_id_fn p x) =
+       Some (fp_block_id (convfp p) (N.to_nat x)).
+Proof. exact link_fp_block_id_in. Qed.
+Print Assumptions C04g_link_fp_block_id_in.
+
 (* ---- the representation invariant bp_wf of the model's proofs, on the translated code ---- *)
 
 Theorem C04g_new_wf :
@@ -240,6 +279,23 @@ Theorem C04g_split_block_total :
          BasePartition_segment p' = BasePartition_segment p.
 Proof. exact g_split_block_total. Qed.
 Print Assumptions C04g_split_block_total.
+
+Theorem C04g_fp_new_wf :
+  forall n : N,
+       1 <= n < 4294967296 ->
+       exists p : Partition, M_Partition_new n = Some p /\ fp_wf (N.to_nat n) (convfp p).
+Proof. exact g_fp_new_wf. Qed.
+Print Assumptions C04g_fp_new_wf.
+
+Theorem C04g_fp_block_id :
+  forall (n : nat) (p : Partition) (x : N),
+       fp_wf n (convfp p) ->
+       (N.to_nat x < n)%nat ->
+       exists b : N,
+         M_Partition_block_id_fn p x = Some b /\
+         in_blk (fp_base (convfp p)) (N.to_nat b) (N.to_nat x).
+Proof. exact g_fp_block_id. Qed.
+Print Assumptions C04g_fp_block_id.
 
 Theorem C04g_example_basepart :
   option_map convbp (M_BasePartition_new 3) =
